@@ -70,6 +70,9 @@ def case(draw, tier):
     nb = draw(st.integers(2, 3))
     with_key = draw(st.booleans())
     n_in = draw(st.sampled_from([1, 1, 2]))
+    # collection-shaped switch output: every branch ends in the library's collect (TS[int] -> TSS[int]), so an instance's
+    # output is the set of everything IT has produced - stale entries of an earlier instance must not survive a switch
+    coll_out = draw(st.integers(0, 3)) == 0
     subs, flags = {}, {}
     for i in range(nb):
         subs[f"B{i}"], flags[i] = draw(branch(f"B{i}", 1 if with_key else 0, horizon, n_in))
@@ -85,7 +88,12 @@ def case(draw, tier):
         key_script.append([t, [{"k": "set", "v": draw(st.sampled_from(keyvals if (has_default or (unmatched and t == times[-1])) else list(range(nb))))}]])
     x_script = draw(gen.int_script(start, end - 1, max_size=9 if big else 6))
     y_script = draw(gen.int_script(start, end - 1, max_size=6 if big else 4)) if n_in == 2 else None
-    return {"y_script": y_script, "start": start, "end": end, "subs": subs, "nb": nb, "with_key": with_key, "has_default": has_default, "reload": reload,
+    if coll_out:
+        for sub in subs.values():
+            sub["stmts"].append({"id": "coll", "op": "op", "name": "collect", "args": [{"ts": sub["ret"]}], "has_out": True, "out": "TSS[int]"})
+            sub["ret"] = "coll"
+            sub["out"] = "TSS[int]"
+    return {"coll_out": coll_out, "y_script": y_script, "start": start, "end": end, "subs": subs, "nb": nb, "with_key": with_key, "has_default": has_default, "reload": reload,
             "key_script": key_script, "x_script": x_script, "flags": {str(k): v for k, v in flags.items()}}
 
 
@@ -169,6 +177,22 @@ def check(case, ctx) -> Result:
             exp += [(t, v) for (t, v, _) in st_.stream(f"r{i}") if ts <= t < te]
     tr = Trace(resp["trace"])
     got = [(t, v) for (t, v, _) in tr.stream("rec", 0, "r")]
+    if case.get("coll_out"):
+        # state comparison: at every tick of either run the switch output must hold exactly what the CURRENT instance alone
+        # has collected so far (an empty tick more or less does not matter; a stale element does)
+        def state(stream, t, lo):
+            vals = [v for (tt, v) in stream if lo <= tt <= t]
+            return sorted(vals[-1]) if vals and vals[-1] else []
+        for t in sorted({tt for tt, _ in got} | {tt for tt, _ in exp}):
+            iv = next(((kk, ts, te) for (kk, ts, te) in ivs if ts <= t < te), None)
+            if iv is None:
+                continue
+            g, e = state(got, t, -1), state(exp, t, iv[1])
+            if g != e:
+                res.violations.append(Viol("switch_stream_differs", f"t={t} (instance of key {iv[0]} selected at {iv[1]}): the switch output holds {g}, that instance alone has collected {e}; intervals {ivs[:8]}",
+                                           dict(feats, collection_output=True, stale=bool(set(g) - set(e)))))
+                break
+        got = exp      # the tick-for-tick comparison below is for scalar outputs
     if got != exp:
         k = next((i for i, (a, b) in enumerate(zip(got, exp)) if a != b), min(len(got), len(exp)))
         tdiff = (got[k][0] if k < len(got) else exp[k][0])
@@ -209,6 +233,8 @@ def check(case, ctx) -> Result:
         res.labels.append("reload_on_ticked")
     if case["has_default"]:
         res.labels.append("default_branch")
+    if case.get("coll_out"):
+        res.labels.append("collection_output")
     if case["with_key"]:
         res.labels.append("key_consuming")
     if case.get("y_script") is not None:
